@@ -294,6 +294,7 @@ func init() {
 		c.RunSharded("c17")
 		c17Cross(c)
 		c17Withdraw(c)
+		c17Revoked(c)
 		ms := c17Methods()
 		nInternal := 0
 		for _, m := range ms {
